@@ -75,7 +75,7 @@ theorem count_union (p q : List Nat) (hp : p.Nodup) (hq : q.Nodup) :
     induction l with
     | nil => simp
     | cons a t ih =>
-      by_cases h : f a <;> simp [List.filter_cons, h] <;> omega
+      by_cases h : f a <;> simp [h] <;> omega
   have := hsplit (fun x => p.contains x) q
   omega
 
